@@ -4,7 +4,7 @@ use super::fmt::{self, Case};
 use crate::engine::{Check, Ctx, Outcome, hash_str};
 use crate::fail;
 
-pub const RULE: &str = "same program / layout / width generator as C07 with comments injected at every position the grammar admits (standalone lines before / after statements, end of line after a statement, standalone lines before list items and record entries, after a comma at end of line, after the last item with and without trailing comma, before the closing bracket, do-block standalone lines / end of line / before return); the comment sequence extracted by a harness lexer (tracks string literals) must be identical before and after formatting through the WASM driver loop and `blots --format` (whole programs) and through format_expr (single statements with in-expression comments). Non-trivial = >= 2 comments in >= 2 different position kinds; distinct by (program text, width).";
+pub const RULE: &str = "same program / layout / width generator as C07 with comments injected at every position the grammar admits (standalone lines before / after statements, end of line after a statement, standalone lines before list items and record entries, after a comma at end of line, after the last item with and without trailing comma, before the closing bracket, do-block standalone lines / end of line / before return); the comment sequence extracted by a harness lexer (tracks string literals) must be identical before and after formatting through the WASM driver loop and `blots --format` (whole programs) and through format_expr (single statements with in-expression comments). Files in which one statement is refused when the tree is built (radix literals beyond 64 bits, 4 literals x 7 file shapes with comments of every kind): `blots --format` must refuse the file without leaving an output, or keep every comment. Non-trivial = >= 2 comments in >= 2 different position kinds; distinct by (program text, width).";
 pub const ASSUMPTIONS: &[&str] = &[
     "comments at continuation positions, which the grammar swallows silently (inside call arguments, after a binary operator at end of line), are outside the statement's list and are not generated here",
     "comment texts are compared after trimming trailing white space",
@@ -129,7 +129,71 @@ impl Check for Comments {
     }
 }
 
+/// files in which one statement is refused when the tree is built (a radix literal beyond 64
+/// bits): `--format` either refuses the file (non-zero status, no output file) or, if it
+/// produces an output, that output has every comment of the input
+pub struct RefusedFiles;
+
+impl Check for RefusedFiles {
+    type Case = String;
+    fn name(&self) -> &'static str {
+        "refused-files"
+    }
+    fn run(&self, text: &String, ctx: &mut Ctx) -> Outcome {
+        ctx.label("file-with-refused-statement");
+        ctx.nontrivial(hash_str(text));
+        let dir = crate::engine::proc::scratch_dir("fmtref");
+        let inp = format!("{}/in.blots", dir);
+        let outp = format!("{}/out.blots", dir);
+        std::fs::write(&inp, text).map_err(|e| e.to_string()).unwrap();
+        let r = crate::engine::proc::run(&ctx.cli_path, &["--format".into(), inp.clone(), outp.clone()], None, None, &crate::engine::proc::Limits::default());
+        let out = std::fs::read_to_string(&outp).ok();
+        let _ = std::fs::remove_dir_all(&dir);
+        let r = match r {
+            Ok(r) => r,
+            Err(e) => fail!("refused:spawn", "{}", e),
+        };
+        if r.signal.is_some() || r.code == Some(101) {
+            fail!(format!("refused:crash:{}", r.describe()), "blots --format ended with {} on\n{}", r.describe(), text);
+        }
+        match (r.code, out) {
+            (Some(0), Some(out)) => {
+                let want = fmt::lex_comments(text);
+                let got = fmt::lex_comments(&out);
+                if want != got {
+                    fail!("cli:lost:file-with-refused-statement", "blots --format exits 0 but the comments {:?} became {:?}\n--- output:\n{}\n--- source:\n{}", want, got, out, text);
+                }
+            }
+            (Some(0), None) => fail!("refused:exit-0-without-output", "blots --format exits 0 without writing the output file for\n{}", text),
+            (_, Some(out)) => fail!("refused:output-despite-failure", "blots --format fails ({}) but leaves an output file:\n{}", r.describe(), out),
+            (_, None) => {}
+        }
+        Ok(())
+    }
+}
+
+fn refused_files() -> Vec<String> {
+    let mut v = Vec::new();
+    let lits = ["0xFFFFFFFFFFFFFFFFFF", "0x8000000000000000", "0b1111111111111111111111111111111111111111111111111111111111111111", "0xffffffffffffffffffffffff"];
+    let shapes = [
+        "// header\nlimit = LIT // c1\ny = 1 // c2\n",
+        "x = 1 // c1\n// standalone\nlimit = [LIT, // c2\n  2]\n",
+        "limit = LIT // c1\n",
+        "a = 1 // first\noutput limit = LIT + a // c1\n// tail\n",
+        "limits = {\n  // inside\n  top: LIT, // c1\n}\nz = 2 // c2\n",
+        "f = x => do {\n  // in block\n  m = LIT // c1\n  return m + x // c2\n}\n",
+        "a = 1\n\n// table of limits\nb = LIT // c1\n\nc = 3 // c2\n",
+    ];
+    for l in lits {
+        for sh in shapes {
+            v.push(sh.replace("LIT", l));
+        }
+    }
+    v
+}
+
 pub fn run(ctx: &mut Ctx) {
+    ctx.run_enum(&RefusedFiles, refused_files().into_iter(), false);
     ctx.run_random(&Comments, fmt::strategy(5, 4), ctx.tier.pick(30_000, 500_000));
     ctx.run_random(&Comments, fmt::strategy(2, 6), ctx.tier.pick(10_000, 200_000));
     ctx.run_random(&Comments, fmt::typed_strategy(), ctx.tier.pick(6_000, 100_000));
